@@ -225,38 +225,53 @@ def ftextLine (fn : String) (tgt : Ty) (s0 : List Nat) (alts : List (Nat × Stri
   let spec := " || ".intercalate (oks ++ ["dst=refused n=- out=- nodst=refused n=- ; *"])
   s!"R dst={r.1} n={nn} out={r.2.2} nodst={q.1} n={qn} | C - | I ret={r.2.1} | S {spec}"
 
+/-- a target type word: a scalar type, or `l` = `long`, which the code treats as `x` (Props/C07 `long_alias`) -/
+def tgtOfName (t : String) : Option (Ty × Bool) :=
+  if t = "l" then some (.x, true) else (Ty.ofName t).map fun ty => (ty, false)
+
+/-- the native-type wrappers by their LP64 target -/
+def nativeWrapper (tgt : Ty) : Option String :=
+  match tgt with
+  | .b => some "mpt_cchar" | .i => some "mpt_cint" | .x => some "mpt_clong"
+  | .y => some "mpt_cuchar" | .u => some "mpt_cuint" | .t => some "mpt_culong"
+  | _ => none
+
 def step (_ : Unit) (w : List String) : Unit × String :=
   match w with
   | ["c", "val", s, t, v] =>
-    match Ty.ofName s, Ty.ofName t with
-    | some src, some tgt =>
+    match Ty.ofName s, tgtOfName t with
+    | some src, some (tgt, long) =>
       match parseSrc src v with
       | some x =>
-        ((), fmtVal tgt (conv src tgt x true) (conv src tgt x false) true ++ " | S " ++ altsVal (expected src tgt x) (some tgt.size))
+        let f := fun d => if long then convLong src x d else conv src tgt x d
+        ((), fmtVal tgt (f true) (f false) true ++ " | S " ++ altsVal (expected src tgt x) (some tgt.size))
       | none => ((), "bad-op")
     | _, _ => ((), "bad-op")
   | ["c", "vval", s, t, v] =>
-    match Ty.ofName s, Ty.ofName t with
-    | some src, some tgt =>
+    match Ty.ofName s, tgtOfName t with
+    | some src, some (tgt, long) =>
       match parseSrc src v with
       | some x =>
-        ((), fmtVal tgt (valueConvert src tgt x true) (valueConvert src tgt x false) ++ " | S " ++ altsVal (expected src tgt x))
+        let f := fun d => if long then valueConvertLong src x d else valueConvert src tgt x d
+        ((), fmtVal tgt (f true) (f false) ++ " | S " ++ altsVal (expected src tgt x))
       | none => ((), "bad-op")
     | _, _ => ((), "bad-op")
   | ["c", "consume", s, t, v] =>
-    match Ty.ofName s, Ty.ofName t with
-    | some src, some tgt =>
+    match Ty.ofName s, tgtOfName t with
+    | some src, some (tgt, long) =>
       match parseSrc src v with
       | some x =>
-        ((), fmtVal tgt (consume src tgt x true) (consume src tgt x false) ++ " | S " ++ altsVal (expected src tgt x))
+        let f := fun d => if long then consumeLong src x d else consume src tgt x d
+        ((), fmtVal tgt (f true) (f false) ++ " | S " ++ altsVal (expected src tgt x))
       | none => ((), "bad-op")
     | _, _ => ((), "bad-op")
   | ["c", "argv", s, t, v] =>
-    match Ty.ofName s, Ty.ofName t with
-    | some src, some tgt =>
+    match Ty.ofName s, tgtOfName t with
+    | some src, some (tgt, long) =>
       match parseSrc src v with
       | some x =>
-        ((), fmtVal tgt (argvConsume src tgt x true) (argvConsume src tgt x false) ++ " | S " ++ altsVal (expected src tgt x))
+        let f := fun d => if long then argvConsumeLong src x d else argvConsume src tgt x d
+        ((), fmtVal tgt (f true) (f false) ++ " | S " ++ altsVal (expected src tgt x))
       | none => ((), "bad-op")
     | _, _ => ((), "bad-op")
   | "c" :: "fpoint" :: "val" :: s :: vals =>
@@ -308,13 +323,35 @@ def step (_ : Unit) (w : List String) : Unit × String :=
         ((), sw.fmt ++ " | S wrong=- qdiff=- ; *")
       else ((), "bad-op")
     | _, _, _, _ => ((), "bad-op")
+  | ["c", "null", s, t] =>
+    -- the converter called with a NULL source
+    match Ty.ofName s, Ty.ofName t with
+    | some src, some tgt =>
+      let zero : Src := if src.isFloat then .flt (.fin false 0 0) else .int 0
+      ((), fmtVal tgt (convNull src tgt true) (convNull src tgt false) true ++ " | S " ++ altsVal (expected src tgt zero) (some tgt.size))
+    | _, _ => ((), "bad-op")
+  | ["c", "skip", s, v] =>
+    -- `mpt_iterator_consume(it, 0, 0)`: no conversion, the iterator advances and the type of the skipped value is returned
+    match Ty.ofName s with
+    | some src =>
+      match parseSrc src v with
+      | some _ => ((), s!"R skipped type={src.name} | C advanced=1 | I - | S skipped type={src.name} ; advanced=1")
+      | none => ((), "bad-op")
+    | none => ((), "bad-op")
+  | ["c", "consume-none", t] =>
+    -- an iterator without a current value
+    match tgtOfName t with
+    | some _ => ((), "R refused | C advanced=0 | I ret=MissingData | S refused ; advanced=0")
+    | none => ((), "bad-op")
   | ["c", "text", fn, t, hex] =>
-    match Ty.ofName t, parseHex hex with
-    | some tgt, some bs =>
-      if (tgt ∈ [Ty.b, .y, .n, .q, .i, .u, .x, .t] ∧ fn ∈ ["number", "string", "cint"]) ∨ (tgt = .c ∧ fn ∈ ["number", "string"]) then
+    match tgtOfName t, parseHex hex with
+    | some (tgt, long), some bs =>
+      if (tgt ∈ [Ty.b, .y, .n, .q, .i, .u, .x, .t] ∧ fn ∈ ["number", "string", "cint"] ∧ (long → fn ≠ "cint")) ∨
+         (tgt = .c ∧ fn ∈ ["number", "string"]) ∨ (fn = "cnat" ∧ (nativeWrapper tgt).isSome ∧ ¬ long) then
         let s := cstr (bs.map (·.toNat))
-        let wrapper := if tgt.signed then s!"mpt_cint{8 * tgt.size}" else s!"mpt_cuint{8 * tgt.size}"
-        let f := if fn = "string" then convertString tgt s else if fn = "cint" then runWrapper wrapper s 0 else convertNumber tgt s
+        let wrapper := if fn = "cnat" then (nativeWrapper tgt).getD "" else
+          if tgt.signed then s!"mpt_cint{8 * tgt.size}" else s!"mpt_cuint{8 * tgt.size}"
+        let f := if fn = "string" then convertString tgt s else if fn = "cint" ∨ fn = "cnat" then runWrapper wrapper s 0 else convertNumber tgt s
         ((), fmtText tgt (f true) (f false) ++ " | S " ++ altsText tgt s)
       else ((), "bad-op")
     | _, _ => ((), "bad-op")
